@@ -117,6 +117,7 @@ def run_history(stack, calls, plan, cut, nservers=1, default_noreply=True, recv_
     Oracle after every call (C01): no recv returned bytes owned by another call, no recv with nothing in flight,
     no recv by a noreply call, and no reply bytes left queued on a socket that is still open.
     """
+    _clock.fresh()
     servers, sclock = fresh_servers(nservers)
     net = NetSim(servers, plan, cuts=(cut,) if cut else ())
     net.eintr_at = eintr_at
